@@ -23,7 +23,19 @@ map main() hands over is compared with the model's hm_after.  Hosts files of
 ARBITRARY bytes (not valid UTF-8, NUL, CR, very long lines, no final newline) go
 through sections A, E and H: every line that does not carry the session's
 marker is byte-identical and in order, or nothing at all was touched
-(c14_rewrite_any_bytes; the model's utf8_ok is compared with CPython's decoder)."""
+(c14_rewrite_any_bytes; the model's utf8_ok is compared with CPython's decoder).
+
+Logging dimension (section H-log): the sessions of section H (real firewall.main,
+real rewrite_etc_hosts / restore_etc_hosts, real helpers.log) are also run at
+helpers.verbose 0/1/2/3 with sys.stdout / sys.stderr replaced by C04's stream
+stand-ins (c04.LogStream) whose k-th operation raises OSError(EIO) /
+BrokenPipeError / ValueError, once or from then on - k swept over the operations
+of the fault-free run, in particular those after the last HOST line and during
+tear-down (a terminal hung up mid-session).  Oracle on the hosts file alone:
+running sessions have their marked lines, ended sessions (however main() ended)
+have none, every other line is untouched.  Model side: c04_log_total (helpers.log
+returns for every OSError / ValueError of its streams) - a theorem of C04, no new
+Coq here."""
 import builtins
 import errno
 import os
@@ -42,7 +54,10 @@ RULE = ("contents x host maps x ports: hosts files built from comments, ordinary
         "instances' shared-path primitives (threads gated at each primitive).  Update histories of 1-3 helpers through the real "
         "firewall.main control channel (and through rewrite_etc_hosts directly): names repeated with the same address, another "
         "address, the address of another host, back to an earlier address, other keys differing in case / by a prefix, sessions "
-        "following one another on a port, IPv6/IPv4 port pairs.  Foreign contents of arbitrary bytes: Latin-1 text, lone / cut-off / "
+        "following one another on a port, IPv6/IPv4 port pairs; the same sessions under a logging environment: helpers.verbose 0-3 x the "
+        "k-th sys.stderr write/flush (optionally sys.stdout.flush too) raising OSError(EIO) / BrokenPipeError / ValueError once or from "
+        "then on, k over every operation of the fault-free run (quick tier: every operation for one session at -vv, else every "
+        "point between two control-channel lines + sampled set-up / HOST / tear-down operations).  Foreign contents of arbitrary bytes: Latin-1 text, lone / cut-off / "
         "overlong / surrogate / out-of-range UTF-8 sequences, UTF-16, BOM, NUL, CR inside lines, 70000-byte lines, no final newline, "
         "undecodable bytes inside other ports' and own marked lines.  A case is non-trivial when the file or the map is "
         "non-empty; distinct by content hash")
@@ -52,6 +67,11 @@ TRUSTED_BASE = [
     "continuation bytes at the range borders, random byte strings); decode-then-encode of well-formed UTF-8 is the identity on bytes (the model works on bytes)",
     "section H: setup_daemon, get_method (a method object that does nothing) and flush_systemd_dns_cache of sshuttle.firewall are replaced; the helper's "
     "stdin/stdout are objects of the harness; rewrite_etc_hosts is wrapped only to record the map it is handed",
+    "section H-log: sys.stdout / sys.stderr of the process are c04.LogStream objects (write / flush succeed or raise the injected exception, made by "
+    "c04.make_exc: OSError with errno EIO, BrokenPipeError with EPIPE, ValueError 'I/O operation on closed file'); helpers.verbose is set directly "
+    "(the real option parsing is C15's); the protocol channel to the client is the harness's own object, not sys.stdout, so a stream fault is a pure "
+    "logging fault; that helpers.log returns under such faults is NOT re-proved here: theorem c04_log_total (coq/Props/C04.v), tied to the real "
+    "helpers.log by C04's log_correspondence",
     "modelled, not verified: POSIX open(O_TRUNC|O_CREAT), link, rename (atomic replacement of the directory entry), chown, chmod, stat; shutil.copyfile (SameFileError on hard-linked source/target)",
     "paths are an inductive type in the model (hosts / backup / per-port temporary): distinct ports give distinct temporary names",
     "in-place writes through a second hard link to the temporary file are not modelled (the temporary is only ever created by open(..., 'w')); "
@@ -73,6 +93,9 @@ ASSUMPTIONS = [
     "no third party modifies the hosts directory while a call runs (other than the sshuttle instances in the schedule)",
     "sections B, C, D, F call rewrite_etc_hosts/restore_etc_hosts the way firewall.main does (hostmap[name]=ip; rewrite / finally: restore); "
     "section H runs firewall.main itself (helpers in one process, one at a time: whole HOST lines interleave, primitives inside a rewrite do not - that is section D)",
+    "section H-log: a log stream operation either succeeds or raises OSError(EIO) / BrokenPipeError / ValueError (the classes the logger's guard names: "
+    "IOError = OSError, ValueError); --syslog is off (stderr is the terminal / pipe / file the helper was started with); the hosts-file oracle is required "
+    "under every such environment for sessions that are in good order with working streams and are sent at least one HOST line",
 ]
 
 PORTS = [12300, 1230, 123000, 12299, 1, 0, 65535]
@@ -1471,18 +1494,25 @@ def preamble(pv6, pv4):
             b"PORTS %d,%d,0,0\n" % (pv6, pv4), b"GO 0 - - 0x01 %d\n" % os.getpid()]
 
 
-def run_main_scenario(fw, content, lnk, ops):
+def run_main_scenario(fw, content, lnk, ops, logenv=None):
     """ops: ["S", i, port_v6, port_v4] start helper i | ["H", i, name, ip] one HOST line | ["E", i] end of its input |
             ["D", port, name, ip] hostmap[name] = ip; rewrite_etc_hosts called directly | ["X", port] restore_etc_hosts directly.
+    logenv: a LogEnv (section H-log) - sys.stdout / sys.stderr of the process are then its failing streams and
+            helpers.verbose its verbosity for the whole scenario (the helpers run one at a time, so the operation
+            count is deterministic).
     -> (records per op [(status, hosts bytes, snapshot)], initial snapshot, {i: maps_seen}, world ids, fs tokens)"""
     w = World(content, 0, 0, 0o644, None, lnk)
     helpers, recs, direct = {}, [], {}
+    if logenv is not None:
+        logenv.install()
     try:
         snap0 = w.snapshot()
         with Patched(fw, w), MainPatched(fw):
             try:
                 for op in ops:
                     k = op[0]
+                    if logenv is not None:
+                        logenv.step = len(recs)
                     if k == "S":
                         h = helpers[op[1]] = Helper(fw, op[2], op[3])
                         h.start()
@@ -1515,13 +1545,19 @@ def run_main_scenario(fw, content, lnk, ops):
                         st, _ = call_impl(fw, w, op[1], direct.get(op[1], {}), restore=True)
                         direct[op[1]] = {}
                     recs.append((st, w.hosts_bytes(), w.snapshot()))
+                    if logenv is not None:
+                        logenv.marks.append((logenv.ops, logenv.ops_all))
             finally:
+                if logenv is not None:
+                    logenv.step = None
                 for h in helpers.values():          # nobody is left waiting
                     if h.status is None:
                         h.lines.put(b"")
                         h.join(10)
         return recs, snap0, {i: h.maps_seen for i, h in helpers.items()}, (w.ino_h0, w.ino_b0), w.fs_tokens()
     finally:
+        if logenv is not None:
+            logenv.remove()
         w.close()
 
 
@@ -1763,6 +1799,324 @@ def run_main_sessions(ctx, fw, n):
 
 
 # ----------------------------------------------------------------------------
+# H-log. section H under a LOGGING ENVIRONMENT (the dimension C04 has, harness/props/c04.py log_dimension): the same
+#    real firewall.main sessions, with helpers.verbose 0/1/2/3 and sys.stdout / sys.stderr of the helper replaced by
+#    C04's stream stand-ins (c04.LogStream, c04.make_exc) whose k-th operation (write or flush) raises OSError(EIO)
+#    (a terminal that was hung up: the helper ignores SIGHUP precisely to clean up), BrokenPipeError (the reader of a
+#    pipe went away) or ValueError (closed file), once or from then on; stderr alone or sys.stdout.flush() as well.
+#    sys.stdout is NOT the channel to the client here (setup_daemon is replaced: the protocol lines READY / STARTED go
+#    to the helper's own _Sink), so the only user of both streams is helpers.log (stdout.flush, stderr.write.., stderr.flush)
+#    and every such fault is a pure logging fault.
+#    Oracle, from the property text, ON THE HOSTS FILE ALONE (how firewall.main ended is used only to know that the session
+#    is over): "While sessions run, the hosts file consists of the lines that were there before, unchanged and in order,
+#    plus one marked line per discovered host of each running instance; when a session ends its marked lines, and only
+#    those, are gone" - under EVERY such environment, for sessions that added HOST lines.  Model side: helpers.log
+#    returns for every OSError / ValueError of its streams (theorem c04_log_total, coq/Props/C04.v; tied to the real
+#    helpers.log by C04's log_correspondence), so in the model a logging fault is invisible to the session and the C14
+#    theorems about update histories (c14_session_last_address, c14_serial_histories) apply unchanged: no new Coq.
+
+LOG_CLASSES = ["OSError", "BrokenPipeError", "ValueError"]          # OSError is made with errno EIO by c04.make_exc
+LOG_CLASS_TEXT = {"OSError": "OSError(EIO) (terminal hung up)", "BrokenPipeError": "BrokenPipeError (EPIPE, reader of the pipe gone)",
+                  "ValueError": "ValueError (I/O operation on closed file)"}
+
+
+def _c04():
+    """C04's stream stand-ins are reused, not copied (importing c04 runs nothing and loads no sshuttle module)"""
+    here = os.path.dirname(os.path.abspath(__file__))
+    if here not in sys.path:
+        sys.path.insert(0, here)
+    import c04
+    return c04
+
+
+class LogEnv:
+    """the `world` behind c04.LogStream for a whole section-H scenario.
+    log = {"v": verbosity, "k": index of the first failing operation (absent/None = none), "mode": "once"|"from",
+           "cls": class name, "both": sys.stdout.flush() counts and fails as well (else only sys.stderr operations count)}"""
+
+    def __init__(self, log):
+        self.log = dict(log or {})
+        self.ops = 0              # operations the fault index counts
+        self.ops_all = 0
+        self.step = None          # index of the scenario op being played
+        self.marks = []           # (ops, ops_all) after each scenario op
+        self.fired = []           # (counted index, scenario op index, stream, operation) of every injected exception
+        self.anomaly = None
+        self.old = None
+
+    def install(self):
+        import sshuttle.helpers as helpers
+        c04 = _c04()
+        self.old = (sys.stdout, sys.stderr, helpers.verbose)
+        sys.stdout, sys.stderr = c04.LogStream(self, "out"), c04.LogStream(self, "err")
+        helpers.verbose = int(self.log.get("v", 0))
+
+    def remove(self):
+        import sshuttle.helpers as helpers
+        if self.old is not None:
+            sys.stdout, sys.stderr, helpers.verbose = self.old
+            self.old = None
+
+    def logop(self, kind, what):          # called by c04.LogStream.write / flush
+        self.ops_all += 1
+        if kind == "out" and what != "flush":
+            self.anomaly = "write to sys.stdout (not the client channel here)"
+            return
+        if kind == "out" and not self.log.get("both"):
+            return
+        idx = self.ops
+        self.ops += 1
+        k = self.log.get("k")
+        if k is None:
+            return
+        if idx == k or (idx > k and self.log.get("mode") == "from"):
+            self.fired.append((idx, self.step, kind, what))
+            raise _c04().make_exc(self.log["cls"])
+
+
+def log_env_text(log, env=None, ops=None):
+    if log.get("k") is None:
+        return "helpers.verbose=%d, working log streams" % log.get("v", 0)
+    t = "helpers.verbose=%d, %s raising %s %s" % (
+        log.get("v", 0), "sys.stderr write/flush and sys.stdout.flush" if log.get("both") else "sys.stderr write/flush",
+        LOG_CLASS_TEXT.get(log["cls"], log["cls"]),
+        ("from its operation %d on" % log["k"]) if log["mode"] == "from" else ("at its operation %d only" % log["k"]))
+    if env is not None and env.fired:
+        idx, step, kind, what = env.fired[0]
+        during = "after the last line" if step is None or ops is None or step >= len(ops) else \
+            "while the helper handled step %d '%s'" % (step, " ".join(str(x) for x in ops[step]))
+        t += " (first hit: sys.%s.%s, %s; %d operation(s) failed)" % ("stdout" if kind == "out" else "stderr", what, during, len(env.fired))
+    return t
+
+
+def judge_main_files(content, ops, recs, snap0):
+    """the C14 oracle on the hosts file alone, for S/H/E scenarios on a hosts file that decodes.  A helper that came
+    back for its next line ('ask') is a running session; anything else (return, any exception out of firewall.main) means
+    the session has ENDED, whatever the reason.  -> None or (index of the op, what is wrong with the file)"""
+    ports = sorted({(op[2] or op[3]) for op in ops if op[0] == "S"})
+    port_of, running, upd = {}, {}, {}
+    written = set()              # ports for which some session of the scenario has had a HOST line processed
+    orig = {p: [l for l in spec_norm_lines(content) if marker(p) in l] for p in ports}
+    prev = snap0
+    for k, (op, (st, data, snap)) in enumerate(zip(ops, recs)):
+        kind, i = op[0], op[1]
+        touched = snap != prev
+        how = None                # how the session of this op ended, if it did
+        p = None
+        if kind == "S":
+            p = port_of[i] = op[2] or op[3]
+            upd[p] = []
+            running[i] = st == "ask"
+            if touched:
+                return k, "starting a session changed the hosts directory before any host was discovered"
+            if st != "ask":
+                how = "the helper ended before STARTED (%s)" % st
+        elif not running.get(i):
+            if touched:
+                return k, "nothing was asked of a running helper, yet the hosts directory changed"
+        elif kind == "H":
+            p = port_of[i]
+            if st == "ask":
+                upd[p].append((op[2], op[3]))
+                written.add(p)
+            else:
+                running[i] = False
+                how = "firewall.main ended with %s while handling 'HOST %s,%s'" % (st[6:] if st.startswith("crash:") else st, op[2], op[3])
+        elif kind == "E":
+            p = port_of[i]
+            running[i] = False
+            how = "end of input on the control channel; firewall.main %s" % (
+                "returned" if st == "return" else "ended with " + (st[6:] if st.startswith("crash:") else st))
+            if not upd[p] and touched:
+                return k, "ending a session that never added a host changed the hosts directory"
+        prev = snap
+        left = sorted(n for n in snap if n.startswith("tmp") or n.startswith("OTHER"))
+        if left:
+            return k, "a temporary file was left behind in the hosts directory (%s)" % ", ".join(left)
+        if base_lines(data, ports) != base_lines(content, ports):
+            return k, "a line without any session's marker was altered, lost or moved: hosts file now %r" % (data,)
+        ls = spec_norm_lines(data)
+        for q in ports:
+            mine = [l for l in ls if marker(q) in l]
+            live = [j for j, r in running.items() if r and port_of[j] == q]
+            if live and upd.get(q):
+                want = spec_marked(q, spec_last(upd[q]))
+                if mine != want:
+                    return k, ("the running session of port %d does not have exactly one marked line per discovered host (at the "
+                               "address of the host's last update): want %r, hosts file has %r" % (q, want, mine))
+            elif live:
+                if mine != ([] if q in written else orig[q]):
+                    return k, "marked lines of port %d changed before its running session discovered any host: %r" % (q, mine)
+            elif q in written:
+                if mine:
+                    return k, ("session of port %d has ended (%s) but its marked line(s) are still in the hosts file: %r"
+                               % (q, how if q == p and how else "earlier", mine))
+            elif mine not in ([], orig[q]):
+                return k, "marked lines of port %d changed though no session of it ever processed a HOST line: %r" % (q, mine)
+    return None
+
+
+def gen_log_scenarios(rng, n):
+    """S/H/E scenarios on hosts files that decode, every session is sent at least one HOST line before it ends"""
+    out = [(c, l, o) for c, l, o in MAIN_FIXED[:4]]
+    tries = 0
+    while len(out) < 4 + n and tries < 50 * (n + 1):
+        tries += 1
+        c, l, o = gen_main_scenario(rng, False, False)
+        sent = {}
+        for op in o:
+            if op[0] == "S":
+                sent[op[1]] = 0
+            elif op[0] == "H":
+                sent[op[1]] += 1
+        if sent and all(sent.values()) and decodes(c) and len(o) <= 12:
+            out.append((c, l, o))
+    return out
+
+
+def log_plan(rng, quick, si, base):
+    """the logging environments one scenario is run under.  base: {v: (ops counted stderr-only, ops counted with stdout,
+    marks)} of the fault-free runs.  Always: the hang-up points (stream dead from the first operation after each
+    control-channel line was handled, i.e. also after the last HOST line and before end of input) and, for the first
+    scenarios or in the thorough tier, EVERY operation index; plus random environments."""
+    plans = []
+    for v in (0, 1, 2, 3):
+        n_err, n_all, marks = base[v]
+        if n_all == 0:
+            # nothing is logged at this verbosity: one run with dead streams shows just that
+            plans.append({"v": v, "k": 0, "mode": "from", "cls": LOG_CLASSES[(si + v) % 3], "both": True})
+            continue
+        full = (not quick) or (si == 0 and v == 2)
+        ks = set()
+        for m_err, m_all in marks:             # between two control-channel lines
+            ks.add(m_err)
+        if full:
+            ks.update(range(n_err))
+        else:
+            # tear-down operations (after the last line was read) and a sample of the rest
+            last = marks[-2][0] if len(marks) > 1 else 0
+            td = list(range(last, n_err))
+            ks.update(rng.sample(td, min(3 if v >= 2 else 1, len(td))))
+            ks.update(rng.sample(range(n_err), min(2, n_err)))
+        ks = sorted(x for x in ks if x < n_err)
+        if quick and not full and v != 2:
+            ks = sorted(rng.sample(ks, min(4, len(ks))))
+        for j, k in enumerate(ks):
+            if full:
+                combos = [(c, "from") for c in LOG_CLASSES] + [(LOG_CLASSES[(j + si) % 3], "once")]
+                if not quick:
+                    combos += [(c, "once") for c in LOG_CLASSES if (c, "once") not in combos]
+            else:
+                combos = [(LOG_CLASSES[(j + si + v) % 3], "from")]
+                if rng.random() < 0.3:
+                    combos.append((rng.choice(LOG_CLASSES), "once"))
+            for cls, mode in combos:
+                plans.append({"v": v, "k": k, "mode": mode, "cls": cls, "both": False})
+        for _ in range(2 if quick else 12):     # sys.stdout.flush() counted and failing as well
+            plans.append({"v": v, "k": rng.randrange(n_all), "mode": rng.choice(["from", "from", "once"]),
+                          "cls": rng.choice(LOG_CLASSES), "both": True})
+    return plans
+
+
+def run_main_log_case(fw, content, lnk, ops, log):
+    """one scenario under one logging environment -> (verdict of the file oracle, verdict of section H's oracle, recs, env)"""
+    env = LogEnv(log)
+    recs, snap0, seen, ids, fstok = run_main_scenario(fw, content, lnk, ops, logenv=env)
+    return judge_main_files(content, ops, recs, snap0), judge_main_scenario(content, ops, recs, snap0), recs, env
+
+
+def main_log_what(ops, log, env, why):
+    return ("real firewall.main with a failing log stream: %s -- logging environment: %s -- property: 'when a session ends its "
+            "marked lines, and only those, are gone' / 'the lines that were there before ... plus one marked line per discovered "
+            "host of each running instance'; helpers.log returns for every OSError/ValueError of its streams (theorem "
+            "c04_log_total), so a logging fault must not change what happens to the hosts file" % (why, log_env_text(log, env, ops)))
+
+
+def run_main_log_sessions(ctx, fw, n):
+    import json
+    import random
+    import re
+    rng = random.Random("C14-main-log-%d" % ctx.seed)          # own stream: the other sections keep their cases
+    quick = ctx.quick()
+    worst = {}                    # (class, mode, kind of the failing step, kind of failure) -> (size, what, replay, count)
+    for si, (content, lnk, ops) in enumerate(gen_log_scenarios(rng, n)):
+        base, ok = {}, True
+        for v in (0, 1, 2, 3):
+            log = {"v": v}
+            fverdict, sverdict, recs, env = run_main_log_case(fw, content, lnk, ops, log)
+            ctx.case(("main-log", content, lnk, repr(ops), repr(log)), nontrivial=True)
+            ctx.count("mainlog_runs_fault_free")
+            ctx.count("mainlog_log_operations_verbose_%d" % v, env.ops_all)
+            if env.anomaly:
+                ctx.disagree("section H-log: log stream used outside helpers.log", repr(ops)[:300], env.anomaly, "only helpers.log touches sys.stdout / sys.stderr")
+            if fverdict is not None or sverdict is not None or any(r[0] not in ("ask", "return") for r in recs):
+                # not a session that adds HOST lines and ends in good order even with working streams: section H's business
+                ok = False
+                if fverdict is not None and base:         # in good order at a lower verbosity: the verbosity alone did it
+                    k, why = fverdict
+                    ctx.violation(main_log_what(ops, log, env, why),
+                                  {"kind": "main-log", "content_hex": None if content is None else hx(content), "link_ok": lnk,
+                                   "ops": ops[:k + 1], "failed_op": k, "log": log, "status": recs[k][0],
+                                   "got_hex": None if recs[k][1] is None else hx(recs[k][1])})
+                break
+            with_out = LogEnv({"v": v, "both": True})
+            run_main_scenario(fw, content, lnk, ops, logenv=with_out)
+            base[v] = (env.ops, with_out.ops, env.marks)
+            if with_out.ops != env.ops_all or [m[1] for m in env.marks] != [m[0] for m in with_out.marks]:
+                ctx.disagree("section H-log: operation count of two fault-free runs", repr(ops)[:300], (env.ops_all, env.marks), (with_out.ops, with_out.marks))
+        if not ok:
+            ctx.count("mainlog_scenarios_skipped_not_in_good_order_without_faults")
+            continue
+        ctx.count("mainlog_scenarios")
+        ctx.count("mainlog_scenarios_with_%d_helpers" % len([o for o in ops if o[0] == "S"]))
+        # the marks must show log operations between the last HOST line and the end of the tear-down at -v and above
+        if base[2][0] <= (base[2][2][-2][0] if len(base[2][2]) > 1 else 0):
+            ctx.disagree("section H-log: no log operation during tear-down at verbosity 2", repr(ops)[:300], base[2], "debug1('undoing changes.') at least")
+        for log in log_plan(rng, quick, si, base):
+            fverdict, sverdict, recs, env = run_main_log_case(fw, content, lnk, ops, log)
+            ctx.case(("main-log", content, lnk, repr(ops), repr(sorted(log.items()))), nontrivial=True)
+            ctx.count("mainlog_runs_with_fault")
+            ctx.count("mainlog_verbose_%d" % log["v"])
+            ctx.count("mainlog_class_%s" % log["cls"])
+            ctx.count("mainlog_mode_%s%s" % (log["mode"], "_stdout_too" if log["both"] else ""))
+            if env.fired:
+                step = env.fired[0][1]
+                ctx.count("mainlog_fault_first_fired_%s" % (
+                    "after_the_last_line" if step is None or step >= len(ops) else
+                    {"S": "during_start_ROUTES_to_STARTED", "H": "while_handling_a_HOST_line", "E": "during_tear_down_after_end_of_input"}[ops[step][0]]))
+                if step is not None and step < len(ops) and ops[step][0] == "E" and any(o[0] == "H" and o[1] == ops[step][1] for o in ops[:step]):
+                    ctx.count("mainlog_fault_in_tear_down_of_a_session_that_added_hosts")
+            else:
+                ctx.count("mainlog_fault_beyond_last_operation" if base[log["v"]][1] else "mainlog_nothing_logged_at_this_verbosity")
+            if fverdict is not None:
+                k, why = fverdict
+                what = main_log_what(ops, log, env, why)
+                rep = {"kind": "main-log", "content_hex": None if content is None else hx(content), "link_ok": lnk,
+                       "ops": ops[:k + 1], "failed_op": k, "log": log, "status": recs[k][0],
+                       "statuses": [r[0] for r in recs[:k + 1]],
+                       "first_failed_operation": list(env.fired[0]) if env.fired else None,
+                       "got_hex": None if recs[k][1] is None else hx(recs[k][1])}
+                key = (log["cls"], log["mode"], ops[k][0], re.sub(r"\d+", "N", why.split("(")[0].split(":")[0]))
+                size = (len(rep["ops"]), bool(log["both"]), log["v"], len(json.dumps(rep)))       # plainest witness first
+                if key not in worst or size < worst[key][0]:
+                    worst[key] = (size, what, rep, worst.get(key, (0, 0, 0, 0))[3] + 1)
+                else:
+                    worst[key] = worst[key][:3] + (worst[key][3] + 1,)
+            elif sverdict is not None or [r[0] for r in recs] != [("ask" if o[0] != "E" else "return") for o in ops]:
+                # the file is as the property says, but the run is not the fault-free run: not a C14 failure, but log() is
+                # total (c04_log_total) and swallows these classes, so nothing but the log text may differ
+                ctx.disagree("section H-log: firewall.main under a failing log stream vs the same session with working streams "
+                             "(hosts file correct at every step; c04_log_total: helpers.log returns)",
+                             {"ops": ops, "log": log, "env": log_env_text(log, env, ops)}, [r[0] for r in recs],
+                             [("ask" if o[0] != "E" else "return") for o in ops], True)
+    # one violation per (class, mode, kind of the failing step, kind of failure): the smallest witness, with its concrete numbers in the text
+    for key in sorted(worst, key=lambda x: (worst[x][0], repr(x))):
+        size, what, rep, cnt = worst[key]
+        rep["failing_cases_of_this_kind"] = cnt
+        ctx.violation(what, rep)
+
+
+# ----------------------------------------------------------------------------
 
 def correspondence(ctx):
     fw = load()
@@ -1941,6 +2295,9 @@ def correspondence(ctx):
         # ---- H: update histories through the real firewall.main (names repeating, several helpers, arbitrary-bytes files)
         run_main_sessions(ctx, fw, 400 if quick else 8000)
 
+        # ---- H-log: the same through the real firewall.main with failing log streams (verbosity x operation x class x mode)
+        run_main_log_sessions(ctx, fw, 5 if quick else 30)
+
         # ---- E: outside the model
         run_outside_model(ctx, fw)
         ctx.notes.append("restore_etc_hosts does nothing when this instance never added a host (firewall.py:72): marked lines left behind "
@@ -1982,6 +2339,16 @@ def replay(ctx, rp):
                 print(" ".join(str(x) for x in op), "->", st, "| hosts:", data)
             print("verdict:", verdict)
             return verdict is not None
+        if r.get("kind") == "main-log":
+            content = b(r["content_hex"])
+            ops, log = r["ops"], r["log"]
+            fverdict, sverdict, recs, env = run_main_log_case(fw, content, r.get("link_ok", True), ops, log)
+            print("logging environment:", log_env_text(log, env, ops))
+            for op, (st, data, snap) in zip(ops, recs):
+                print(" ".join(str(x) for x in op), "->", st, "| hosts:", data)
+            print("verdict (hosts file alone):", fverdict)
+            print("verdict (section H, statuses included):", sverdict)
+            return fverdict is not None
         if r.get("kind") == "refused":
             import io
             content = b(r["content_hex"])
